@@ -227,6 +227,8 @@ func c09Isolation(r *verdict.Run, runs int, race bool) {
 			return
 		}
 		defer c.Stop()
+		defer reportLockMonitor(r, c)
+		enableLockMonitor(c)
 		e, err := startEmu(c, "")
 		if err != nil {
 			r.Inconclusive("infra: " + err.Error())
@@ -399,6 +401,8 @@ func c09Introspection(r *verdict.Run, runs int) {
 			r.Inconclusive("infra: " + err.Error())
 			return
 		}
+		defer reportLockMonitor(r, c)
+		enableLockMonitor(c)
 		c.Ctl("seed %d", r.Seed*59+int64(run))
 		c.Ctl("yield ds: 200 100")
 		c.Ctl("yield exec:between-commands 300 200")
@@ -477,6 +481,8 @@ func c09IsolationAcrossDatabases(r *verdict.Run, runs int) {
 			r.Inconclusive("infra: " + err.Error())
 			return
 		}
+		defer reportLockMonitor(r, c)
+		enableLockMonitor(c)
 		c.Ctl("seed %d", r.Seed*211+int64(run))
 		c.Ctl("yield exec:between-commands 600 300")
 		var stop atomic.Bool
